@@ -616,6 +616,9 @@ func (c01) Run(sc core.Scenario) core.Result {
 	}})
 	defer env.Shutdown()
 	env.RPC.Register("Cat", cat)
+	// an alias spelled exactly like a registered method (pointing elsewhere) must never win over it
+	env.RPC.AliasMethod(fm.f("Cat", "Ints"), fm.f("Cat", "Uints"))
+	env.RPC.AliasMethod(fm.f("Cat", "P0VE"), fm.f("Cat", "Nope"))
 	ctype, methods := catClientType()
 	cli := reflect.New(ctype)
 	copts := []jsonrpc.Option{jsonrpc.WithMethodNameFormatter(fm.f), jsonrpc.WithParamEncoder(new(Enc), func(v reflect.Value) (reflect.Value, error) {
@@ -731,9 +734,51 @@ func (c01) Run(sc core.Scenario) core.Result {
 		cat.mu.Unlock()
 		cat.take()
 
-		outs := cli.Elem().Field(mi).Call(args)
+		// now and then a second, different, parameterless method is in flight at the same time
+		var side chan []reflect.Value
+		if i%5 == 2 && !usePlain && m.Name != "RValOnly" {
+			side = make(chan []reflect.Value, 1)
+			for sj := range methods {
+				if methods[sj].Name == "RValOnly" && m.Name != "RValOnly" {
+					fld := cli.Elem().Field(sj)
+					cat.mu.Lock()
+					cat.next["RValOnly"] = catNext{val: reflect.ValueOf("side-value")}
+					cat.mu.Unlock()
+					go func() { side <- fld.Call(nil) }()
+				}
+			}
+		}
+		mainDone := make(chan []reflect.Value, 1)
+		go func() { mainDone <- cli.Elem().Field(mi).Call(args) }()
+		var outs []reflect.Value
+		select {
+		case outs = <-mainDone:
+		case <-time.After(core.Grace):
+			r.Violate("call-hang:"+m.Name, "%s/%s %s: the call did not return within %v on a healthy link (another method in flight: %v)", tr, fm.name, m.Name, core.Grace, side != nil)
+			return r.Result()
+		}
+		if side != nil && m.Name != "RValOnly" {
+			select {
+			case so := <-side:
+				if so[0].String() != "side-value" {
+					r.Violate("result-mismatch:RValOnly", "%s/%s: RValOnly in flight next to %s returned %q, expected \"side-value\"", tr, fm.name, m.Name, so[0].String())
+				}
+			case <-time.After(core.Grace):
+				r.Violate("call-hang:RValOnly", "%s/%s: RValOnly in flight next to %s did not return within %v", tr, fm.name, m.Name, core.Grace)
+				return r.Result()
+			}
+		}
 
 		recs := cat.take()
+		if side != nil {
+			var kept []catRec
+			for _, x := range recs {
+				if x.method != "RValOnly" {
+					kept = append(kept, x)
+				}
+			}
+			recs = kept
+		}
 		label := fmt.Sprintf("%s/%s %s(%s)", tr, fm.name, m.Name, core.Trunc(strings.Join(expArgs, ", "), 300))
 		if usePlain {
 			label = "[plain pair, no custom codec] " + label
